@@ -68,6 +68,7 @@ def import_all():
 
 
 IMPORT_SKIPPED: list = []
+TOLERANT_CODE = False
 
 
 def needed_modules() -> set:
@@ -328,8 +329,16 @@ def collect() -> dict:
         if not isinstance(f, str):
             raise TranslatorError(f"payload_dataclass.type_map({key}) = {f!r} is not a format name")
         type_map[key] = f
+    # --- bodies of to_pack_list / from_unpack_list / __init__ of every class, translated (see gen_c02_code.py) ----------
+    import gen_c02_code
+    try:
+        codes = gen_c02_code.collect_code(payloads, lambda qn: shortnames[qn], load_spec().get("old_attr_order", {}))
+    except TranslatorError:
+        if not TOLERANT_CODE:
+            raise
+        codes = []      # the harness' fallback after a translator failure: classes and registry are still usable
     return {"registry": registry, "origin": origin, "overlays": overlays, "payloads": payloads, "type_map": type_map,
-            "import_skipped": list(IMPORT_SKIPPED)}
+            "import_skipped": list(IMPORT_SKIPPED), "codes": codes}
 
 
 def fmtlist_lean(items: list[str]) -> str:
@@ -342,7 +351,7 @@ def fmtlist_lean(items: list[str]) -> str:
 def gen_lean(info: dict) -> str:
     o = ["/- GENERATED by tools/gen_c02.py from the live ipv8 package (Serializer registry, overlay serializers, every",
          "   Serializable subclass) — do not edit -/",
-         "import Ipv8.C02.Model",
+         "import Ipv8.C02.Code",
          "namespace Ipv8.C02.Gen",
          "open Ipv8.C02",
          "",
@@ -393,6 +402,26 @@ def gen_lean(info: dict) -> str:
     o.append("/-- payload_dataclass.type_map evaluated on the live module: annotation -> format name -/")
     o.append("def typeMap : List (String × String) := ["
              + ", ".join(f"({lstr(k)}, {lstr(v)})" for k, v in info["type_map"].items()) + "]")
+    o.append("")
+    import gen_c02_code
+    o.append("/-! ### method bodies (to_pack_list / from_unpack_list / __init__) translated from the source of every class -/")
+    o.append("")
+    idents = []
+    for i, c in enumerate(info.get("codes", [])):
+        o.append(gen_c02_code.code_lean(c, f"cc{i}"))
+        idents.append(f"cc{i}")
+    o.append("")
+    kinds = {p["name"]: p["kind"] for p in info["payloads"]}
+    for i, c in enumerate(info.get("codes", [])):
+        if kinds.get(c["name"]) == "old":
+            o.append(f"abbrev codeOld_{c['name'].rpartition('.')[2]} : Code.ClassCode := cc{i}")
+    o.append("")
+    o.append("def classCodes : List Code.ClassCode := [" + ", ".join(idents) + "]")
+    o.append("")
+    o.append("/-- the translated code of a class by qualified name (an empty class if it is not shipped any more) -/")
+    o.append("def codeOf (n : String) : Code.ClassCode :=")
+    o.append("  (classCodes.find? (fun c => c.name == n)).getD "
+             "{ name := n, attrs := [], pack := [], unpackParams := 0, ctorArgs := [], ctorParams := 0, init := [] }")
     o.append("")
     o.append("end Ipv8.C02.Gen")
     o.append("")
